@@ -16,12 +16,11 @@ def plan(tier, seed):
              "(default markers and markers with metacharacters)")
     else:
         for pt in (0, 1, 2):
-            conds += hist_conds("c11", 3, 2400, {"C11_PRETEXT": pt}, by_name=True, nn=2, nd=2)
-            conds += hist_conds("c11", 2, 900, {"C11_PRETEXT": pt}, by_name=True, nd=2)
-        conds += [c for c in hist_conds("c11", 4, 2400, {"C11_PRETEXT": 0}, by_name=True, nn=2, nd=1) if "-add-" in c.name]
-        b = ("all histories of length 3 over 2 names x 2 definitions and of length 2 over 3 names (+ bytes alias) x 2 definitions, "
-             "with default markers, custom markers and markers containing regex metacharacters; length 4 over 2 names starting "
-             "with addfilter")
+            conds += hist_conds("c11", 3, 1500, {"C11_PRETEXT": pt}, by_name=True, nn=2, nd=1)
+            conds += hist_conds("c11", 2, 900, {"C11_PRETEXT": pt}, by_name=True, nd=1)
+        conds += hist_conds("c11", 2, 900, {"C11_PRETEXT": 0}, by_name=True, nd=2)
+        b = ("all histories of length 3 over 2 names and of length 2 over 3 names (+ bytes alias), with default markers, custom "
+             "markers and markers containing regex metacharacters; length 2 with 2 definitions (default markers)")
     conds.append(Cond("c11-vacuity", F, "hist2", env={"C12_MODE": "c11"}, timeout=90, vacuity=True))
     meta = dict(functions=FUNCS + ["sievelib.factory.FiltersSet.tosieve/__str__", "from_parser_result", "require",
                                    "__gen_require_command", "sievelib.parser.Parser.parse (hash comment collection)"],
